@@ -234,6 +234,28 @@ def check(ctx):
                           f"`{short(st, 70)}` writes an attribute of a compiled node shared by all threads and is not an idempotent memo ({'; '.join(why)}): "
                           f"a second thread can observe the intermediate state",
                           m, st, detail=f"`if self.{s.attr} is None: self.{s.attr} = <pure of unwritten attributes>`")
+    # --- R3: is_recursive reads its verdict where the checker wrote it
+    ctx.rule("C20.R3", "is_recursive: the verdict is read from the dictionary the checker has filled - not from a separately fetched recursion_cache() result, which a cache reset (a registration made by another thread, set_size) makes a different object", floor=2)
+    ir = model.func("apischema.recursion.is_recursive")
+    rets = [n for n in walk_no_nested(ir.node) if isinstance(n, ast.Return) and isinstance(n.value, ast.Subscript) and isinstance(n.value.value, ast.Name)]
+    ctx.require(len(rets) == 1, "is_recursive: `return <cache>[rec_key]` not found")
+    cvar = rets[0].value.value.id
+    runs = [c for c in walk_no_nested(ir.node) if isinstance(c, ast.Call) and isinstance(c.func, ast.Attribute) and c.func.attr in ("visit_with_conv", "visit")]
+    ctx.require(len(runs) == 1, "is_recursive: the run of the recursion checker was not found")
+    run = runs[0]
+    ck = run.func.value
+    shares_arg = isinstance(ck, ast.Call) and any(isinstance(a, ast.Name) and a.id == cvar for a in list(ck.args) + [k.value for k in ck.keywords])
+    reread = False
+    if isinstance(ck, ast.Name):
+        ctor = [n for n in walk_no_nested(ir.node) if isinstance(n, ast.Assign) and norm(n.targets[0]) == ck.id and isinstance(n.value, ast.Call)]
+        shares_arg = any(isinstance(a, ast.Name) and a.id == cvar for n in ctor for a in list(n.value.args) + [k.value for k in n.value.keywords])
+        reread = any(isinstance(n, ast.Assign) and norm(n.targets[0]) == cvar and norm(n.value) == f"{ck.id}._cache" and n.lineno > run.lineno and n.lineno < rets[0].lineno for n in walk_no_nested(ir.node))
+    ctx.check(shares_arg or reread, "C20.R3", f"{ir.qualname}:same-dict", None,
+              f"`{short(rets[0], 40)}` reads `{cvar}`, fetched with recursion_cache() by is_recursive, while the checker writes into the dictionary it fetched itself: when the caches are reset between the two fetches (CacheAwareDict.__setitem__ in another thread while this one waits for the lock; cache.set_size(0)) the key is missing - KeyError out of deserialize / serialize",
+              ir, rets[0], detail=f"{cvar} = <checker>._cache after the run (or the dictionary is handed to the checker)")
+    inside = any(any(x is rets[0] for x in ast.walk(b)) and any(x is run for x in ast.walk(b)) for b in with_lock_blocks(model, ir, locks))
+    ctx.check(inside, "C20.R3", f"{ir.qualname}:under-lock", None, "the run of the checker and the read of its verdict are not inside the same `with <lock>` block", ir, rets[0], detail="with _recursion_lock: run; return")
+
     # lru_cache'd per-instance memo of LazyConversion is created at construction time only
     lc = model.classes.get("apischema.conversions.conversions.LazyConversion")
     if lc is not None:
@@ -256,9 +278,11 @@ def mutants(mb):
     R = "apischema/recursion.py"
     DM = "apischema/deserialization/methods.py"
     SM = "apischema/serialization/methods.py"
-    mb.add_text("no-lock", R, "    with _recursion_lock:\n        if rec_key not in cache:\n            checker_cls(default_conversion).visit_with_conv(tp, conversion)\n        return cache[rec_key]\n", "    if rec_key not in cache:\n        checker_cls(default_conversion).visit_with_conv(tp, conversion)\n    return cache[rec_key]\n", "C20.R1", "RecursiveChecker.visit")
-    mb.add_text("lock-too-narrow", R, "    with _recursion_lock:\n        if rec_key not in cache:\n            checker_cls(default_conversion).visit_with_conv(tp, conversion)\n        return cache[rec_key]\n", "    with _recursion_lock:\n        missing = rec_key not in cache\n    if missing:\n        checker_cls(default_conversion).visit_with_conv(tp, conversion)\n    return cache[rec_key]\n", "C20.R1", "RecursiveChecker.visit")
-    mb.add_text("local-lock", R, "    with _recursion_lock:\n        if rec_key not in cache:", "    with RLock():\n        if rec_key not in cache:", "C20.R1", "RecursiveChecker.visit")
+    mb.add_text("no-lock", R, "    with _recursion_lock:\n        cache = recursion_cache(checker_cls)\n        if rec_key not in cache:\n            checker = checker_cls(default_conversion)\n            checker.visit_with_conv(tp, conversion)\n            # caches can be reset at any time (registration in another thread,\n            # cache.set_size(0)): read the result where the checker has written it\n            cache = checker._cache\n        return cache[rec_key]\n", "    cache = recursion_cache(checker_cls)\n    if rec_key not in cache:\n        checker = checker_cls(default_conversion)\n        checker.visit_with_conv(tp, conversion)\n        cache = checker._cache\n    return cache[rec_key]\n", "C20.R1", "RecursiveChecker.visit")
+    mb.add_text("lock-too-narrow", R, "    with _recursion_lock:\n        cache = recursion_cache(checker_cls)\n        if rec_key not in cache:\n            checker = checker_cls(default_conversion)\n            checker.visit_with_conv(tp, conversion)\n            # caches can be reset at any time (registration in another thread,\n            # cache.set_size(0)): read the result where the checker has written it\n            cache = checker._cache\n        return cache[rec_key]\n", "    with _recursion_lock:\n        cache = recursion_cache(checker_cls)\n        missing = rec_key not in cache\n    if missing:\n        checker = checker_cls(default_conversion)\n        checker.visit_with_conv(tp, conversion)\n        cache = checker._cache\n    return cache[rec_key]\n", "C20.R1", "RecursiveChecker.visit")
+    mb.add_text("local-lock", R, "    with _recursion_lock:\n        cache = recursion_cache(checker_cls)\n", "    with RLock():\n        cache = recursion_cache(checker_cls)\n", "C20.R1", "RecursiveChecker.visit")
+    mb.add_text("verdict-from-own-fetch", R, "            cache = checker._cache\n", "", "C20.R3", "same-dict")
+    mb.add_text("verdict-refetched", R, "            cache = checker._cache\n", "            cache = recursion_cache(checker_cls)\n", "C20.R3", "same-dict")
     mb.add_text("recmethod-clears-lazy", DM, "        if self.method is None:\n            self.method = self.lazy()\n        return self.method.deserialize(data)", "        if self.method is None:\n            lazy, self.lazy = self.lazy, None\n            self.method = lazy()\n        return self.method.deserialize(data)", "C20.R2", "RecMethod")
     mb.add_text("ser-recmethod-unguarded", SM, "        if self.method is None:\n            self.method = self.lazy()\n        return self.method.serialize(obj)", "        self.method = self.lazy()\n        return self.method.serialize(obj)", "C20.R2", "RecMethod")
     mb.add_text("node-counter", DM, "    def deserialize(self, data: Any) -> Any:\n        if type(data) in self.constraints:", "    def deserialize(self, data: Any) -> Any:\n        self.calls = getattr(self, 'calls', 0) + 1\n        if type(data) in self.constraints:", "C20.R2", "AnyMethod")
